@@ -3,6 +3,7 @@
 # certain rights in this software.
 import enum
 import math
+import numbers
 
 from jaqalpaq.error import JaqalError
 
@@ -159,7 +160,8 @@ class Parameter(AnnotatedValue):
                     f"Type-checking failed: parameter {self.name}={value} does not have type {self.kind}."
                 )
         elif self.kind == ParamType.FLOAT:
-            if isinstance(value, float) or isinstance(value, int):
+            if isinstance(value, (float, int, numbers.Real)):
+                # also e.g. numpy.int64 or numpy.float32
                 pass
             elif isinstance(value, AnnotatedValue) and value.kind in (
                 ParamType.INT,
@@ -172,7 +174,9 @@ class Parameter(AnnotatedValue):
                     f"Type-checking failed: parameter {self.name}={value} does not have type {self.kind}."
                 )
         elif self.kind == ParamType.INT:
-            if _is_integral_float(value) or isinstance(value, int):
+            if _is_integral_float(value) or isinstance(
+                value, (int, numbers.Integral)
+            ):
                 pass
             elif isinstance(value, AnnotatedValue) and value.kind in (
                 ParamType.INT,
@@ -213,7 +217,12 @@ class Parameter(AnnotatedValue):
 
 def _is_integral_float(value):
     """Return whether value is a finite float that represents an integer."""
-    return isinstance(value, float) and math.isfinite(value) and int(value) == value
+    return (
+        isinstance(value, (float, numbers.Real))
+        and not isinstance(value, numbers.Integral)
+        and math.isfinite(value)
+        and int(value) == value
+    )
 
 
 def make_item_name(array, index):
